@@ -72,7 +72,7 @@ def generate(check, rng, tier, run_index):
                         'frames': rng.randint(1, 3), 'seed': rng.below(1 << 20)})
         else:
             ops.append({'op': 'read', 'p': p, 'how': rng.choice(['load', 'load_frame', 'iterload', 'open_read', 'load_topology', 'cursor'])})
-    return {'check': check, 'paths': paths, 'ops': ops, 'seed': rng.below(1 << 30)}
+    return {'check': check, 'paths': paths, 'ops': ops, 'seed': rng.below(1 << 30), 'relative': rng.chance(0.3)}
 
 
 # ------------------------------------------------------------------ tree model
@@ -167,6 +167,14 @@ def _same_as_fresh(root, fresh_root, rels_pairs):
 
 
 def execute(check, case, workdir):
+    cwd = os.getcwd()
+    try:
+        return _execute(check, case, workdir)
+    finally:
+        os.chdir(cwd)
+
+
+def _execute(check, case, workdir):
     import warnings
     warnings.simplefilter('ignore')
     import mdtraj as md
@@ -174,12 +182,18 @@ def execute(check, case, workdir):
     root = os.path.join(workdir, 'tree')
     fresh = os.path.join(workdir, 'fresh')
     os.makedirs(root)
+    pathroot = root
+    if case.get('relative'):
+        # the user works inside the directory and names files relatively
+        os.chdir(root)
+        pathroot = ''
+        res.probe('relative_paths')
     top = fmts.make_topology(N_ATOMS)
     state = {}     # path index -> {'valid': bool, 'n': frames}  (what the model believes is at the path)
 
     # ---- pre-existing entries
     for k, ent in enumerate(case['paths']):
-        p = os.path.join(root, ent['name'])
+        p = os.path.join(pathroot, ent['name'])
         ext = ent['ext']
         st = {'valid': False, 'n': 0}
         if ent['pre'] in ('valid_short', 'valid_long'):
@@ -217,7 +231,7 @@ def execute(check, case, workdir):
         res.steps += 1
         ent = case['paths'][op['p']]
         ext = ent['ext']
-        p = os.path.join(root, ent['name'])
+        p = os.path.join(pathroot, ent['name'])
         before = snapshot(root)
         kind = op['op']
         if kind == 'save':
